@@ -288,19 +288,21 @@ func c03Run(c Case) (Result, error) {
 		return true
 	}
 	if v, e := crypto.BatchVerifyBLSSignaturesOneMessage(nil, nil, msg, hs); !crypto.IsBLSAggregateEmptyListError(e) || !allFalse(v) {
-		return Result{}, fmt.Errorf("empty list: unexpected result")
+		return Result{}, implViolation("empty list: unexpected result")
 	}
 	if v, e := crypto.BatchVerifyBLSSignaturesOneMessage(pks, append(append([]crypto.Signature{}, sigs...), sigs[0]), msg, hs); !crypto.IsInvalidInputsError(e) || !allFalse(v) || len(v) != n+1 {
-		return Result{}, fmt.Errorf("length mismatch: unexpected result")
+		return Result{}, implViolation("length mismatch: unexpected result")
 	}
 	if v, e := crypto.BatchVerifyBLSSignaturesOneMessage(pks, sigs, msg, nil); !crypto.IsNilHasherError(e) || !allFalse(v) {
-		return Result{}, fmt.Errorf("nil hasher: unexpected result")
+		return Result{}, implViolation("nil hasher: unexpected result")
 	}
 	ek, _ := crypto.GeneratePrivateKey(crypto.ECDSAP256, rbytes(rr, 32))
-	bp := append([]crypto.PublicKey{}, pks...)
-	bp[n-1] = ek.PublicKey()
-	if v, e := crypto.BatchVerifyBLSSignaturesOneMessage(bp, sigs, msg, hs); !crypto.IsNotBLSKeyError(e) || !allFalse(v) {
-		return Result{}, fmt.Errorf("non-BLS key: unexpected result")
+	for pos := 0; pos < n; pos++ {
+		bp := append([]crypto.PublicKey{}, pks...)
+		bp[pos] = ek.PublicKey()
+		if v, e := crypto.BatchVerifyBLSSignaturesOneMessage(bp, sigs, msg, hs); !crypto.IsNotBLSKeyError(e) || !allFalse(v) || len(v) != n {
+			return Result{}, implViolation("non-BLS key at index %d of %d: error %v, results %v (documented: notBLSKey error, every result false)", pos, n, e, v)
+		}
 	}
 	var obs []string
 	for i := range out {
